@@ -219,6 +219,25 @@ fn run_job(scope_ptr: *mut Scope, job: &Job, emit: &mut dyn FnMut(usize, &Out)) 
                     }
                 })
             }
+            Step::CompileBare { src } | Step::CompileFresh { src } => {
+                let text = job.srcs.get(*src).cloned().unwrap_or_default();
+                let bare = matches!(step, Step::CompileBare { .. });
+                guarded(|| {
+                    let mut scope: Scope = if bare { RootCompilationScope::new() } else { xray::std_compilation_scope() };
+                    match scope.feed_file(&text) {
+                        Ok(()) => Out::Done,
+                        Err(e) => {
+                            let class = match e.as_ref() {
+                                ResolvedTracedCompilationError::Syntax(_) => "Syntax".to_string(),
+                                ResolvedTracedCompilationError::Compilation(r, _, _) => {
+                                    <&xray::compile_err::ResolvedCompilationError as Into<&'static str>>::into(r).to_string()
+                                }
+                            };
+                            Out::CompileError { class, text: format!("{e}") }
+                        }
+                    }
+                })
+            }
             Step::Instantiate => {
                 eval = None;
                 rt = None;
